@@ -3,4 +3,5 @@ From Coq Require Import NArith ZArith.
 Require Import ExtrOcamlBasic.
 Extraction Language OCaml.
 Extraction "model.ml" init step run quiesce tick ws_conn_count live_conns
-  routing_b isolated_b isolated_log_b shared_b drain_b failed_b sse_routing_b spec_class sse_class tlocal_b terminal key_eqb Z.of_N.
+  routing_b isolated_b isolated_log_b shared_b drain_b failed_b sse_routing_b spec_class sse_class tlocal_b terminal key_eqb
+  conn_key hdr_lines Z.of_N.
